@@ -676,6 +676,17 @@ def run_search(repo, rep, name, dwc):
         n, call, neg = dw
         acc = 'true'
         e0, neg0 = au.strip_not(n.expr)
+        # recognised bad shape: `if <other> or design_within_constraints(T, C):` — the accepting branch is taken without the
+        # check whenever <other> holds
+        if isinstance(e0, ast.BoolOp) and isinstance(e0.op, ast.Or) and not neg0 and any(v is call for v in e0.values):
+          succ_t = [m_ for m_, l_ in g.succ[n] if l_ == 'true']
+          if succ_t and (P_.node in g.reachable(succ_t[0], view.one_iteration_edges(inner)) or succ_t[0] is P_.node):
+            others_ = [norm(v)[:60] for v in e0.values if v is not call]
+            rep.undecided('R2/must-pass', '%s: %s' % (name, kappa),
+                          'the design_within_constraints guard of the push is short-circuited by `%s`: whether that condition implies the check (a correct memo) or bypasses it is not decided here'
+                          % ' or '.join(others_), f.loc(n.expr))
+            result[kappa] = ('undecided', None)
+            continue
         if e0 is call:
           acc = 'false' if neg0 else 'true'
           one_it = view.one_iteration_edges(inner)
